@@ -369,11 +369,24 @@ func c15BothSucceed(c *core.Ctx, fn *ssa.Function, key string, br, both *ssa.Fun
 						bothFailed[errOwner(b)] = true
 					}
 				}
-				if bo, isBo := cd.V.(*ssa.BinOp); isBo && ((bo.Op == token.EQL && cd.Pos) || (bo.Op == token.NEQ && !cd.Pos)) {
+				if bo, isBo := cd.V.(*ssa.BinOp); isBo && (bo.Op == token.EQL || bo.Op == token.NEQ) {
+					// (a ==/!= nil) ==/!= (b ==/!= nil): the members fail or succeed alike when the
+					// number of negations (operator, polarities, branch taken) is even
 					l, okl := bo.X.(*ssa.BinOp)
 					rr, okr := bo.Y.(*ssa.BinOp)
-					if okl && okr && l.Op == token.EQL && rr.Op == token.EQL && facts.IsNilConst(l.Y) && facts.IsNilConst(rr.Y) && facts.Term(l.X) != facts.Term(rr.X) {
-						eqForm = true
+					nilCmp := func(b *ssa.BinOp) bool {
+						return (b.Op == token.EQL || b.Op == token.NEQ) && facts.IsNilConst(b.Y) && !facts.IsNilConst(b.X)
+					}
+					if okl && okr && nilCmp(l) && nilCmp(rr) && facts.Term(l.X) != facts.Term(rr.X) {
+						neg := 0
+						for _, n := range []bool{bo.Op == token.NEQ, l.Op == token.NEQ, rr.Op == token.NEQ, !cd.Pos} {
+							if n {
+								neg++
+							}
+						}
+						if neg%2 == 0 {
+							eqForm = true
+						}
 					}
 				}
 			}
